@@ -83,12 +83,13 @@ def parseMesPrio (dg : String) : List (String × List (String × Nat)) :=
     | _ => none
 
 /-- C15: the configured MultiEndpoints are exactly those of the last accepted options, each with the
-    configured endpoints at the configured positions -/
+    configured endpoints ranked by their first position in the configured list (F29) -/
 def configMatches (hist : List (String × List String)) (dg : String) : Bool :=
   let mes := parseMesPrio dg
   (mes.all fun (n, eps) =>
     match hist.find? (fun h => h.1 == n) with
-    | some (_, l) => (eps.all fun (id, p) => l[p]? == some id) && l.all fun id => eps.any fun q => q.1 == id
+    | some (_, l) => (eps.all fun (id, p) => l.eraseDups[p]? == some id) && (l.all fun id => eps.any fun q => q.1 == id) &&
+        eps.length == l.eraseDups.length
     | none => false) &&
   hist.all fun (n, _) => mes.any fun m => m.1 == n
 
